@@ -217,7 +217,8 @@ def run_case(spec0, target, steps, op, pos, pert, stats, add):
             # was done: not an execution
             stats['noop_accepted'] = stats.get('noop_accepted', 0) + 1
         elif verdict == 'must-reject':
-            add('C12|non-equivalent-evolution-executed|%s' % shape, replay,
+            add('C12|non-equivalent-evolution-executed|%s|%s' % (
+                shape, same_field_context(pert, pos)), replay,
                 {'statements': [q for q, _p in effects][:5],
                  'stdout': res.stdout[-300:]})
         elif not effects and post == pre:
@@ -247,7 +248,19 @@ def run_case(spec0, target, steps, op, pos, pert, stats, add):
             add('C12|rejection-without-evolution-error|%s' % shape, replay,
                 {'error': msg[:300]})
     if effects:
-        add('C12|sql-executed-by-rejected-upgrade|%s' % shape, replay,
+        err = str(getattr(res.exc, 'detailed_error', None) or res.exc)
+        errclass = 'other'
+        for key in ('duplicate column name', 'no such column',
+                    'NOT NULL constraint failed', 'has no column named',
+                    'UNIQUE constraint failed', 'no such index',
+                    'already exists', 'no such table'):
+            if key in err:
+                errclass = key.replace(' ', '-')
+                break
+        if res.exc_type != 'CommandError':
+            errclass = 'crash:' + res.exc_type
+        add('C12|sql-executed-by-rejected-upgrade|%s|%s' % (shape, errclass),
+            replay,
             {'statements': [q for q, _p in effects][:5],
              'error': str(res.exc)[:200]})
     if post != pre:
